@@ -2,6 +2,7 @@ package main
 
 import (
 	"context"
+	"errors"
 	"fmt"
 	"sort"
 	"time"
@@ -22,6 +23,7 @@ import (
 	"sigs.k8s.io/karpenter/pkg/cloudprovider/fake"
 	"sigs.k8s.io/karpenter/pkg/controllers/dynamicresources/deviceallocation"
 	"sigs.k8s.io/karpenter/pkg/controllers/provisioning"
+	pscheduling "sigs.k8s.io/karpenter/pkg/controllers/provisioning/scheduling"
 	"sigs.k8s.io/karpenter/pkg/controllers/state"
 	"sigs.k8s.io/karpenter/pkg/events"
 	"sigs.k8s.io/karpenter/pkg/scheduling"
@@ -161,8 +163,37 @@ func runP(c *kit.Ctx, r *kit.Rand, mode int) {
 	if mode == 5 {
 		limits = corev1.ResourceList{corev1.ResourceCPU: *resource.NewQuantity(8, resource.DecimalSI)}
 	}
+	if mode <= 2 && r.Chance(1, 5) {
+		limits[corev1.ResourcePods] = *resource.NewQuantity(int64(r.Range(1, 4))*20, resource.DecimalSI)
+	}
 	np := test.NodePool(v1.NodePool{ObjectMeta: metav1.ObjectMeta{Name: "pool"}, Spec: v1.NodePoolSpec{Limits: v1.Limits(limits)}})
 	kit.Apply(ctx, cl, np)
+	// neighbours the pass must keep apart: a second dynamic pool with its own limits, a static pool and a pool that is
+	// not ready (both invisible to the scheduler), nodes that belong to no pool
+	type epool struct {
+		name   string
+		limits corev1.ResourceList
+	}
+	emitPools := []epool{{"pool", limits}}
+	if mode <= 2 && r.Chance(1, 2) {
+		ol := corev1.ResourceList{}
+		if r.Chance(2, 3) {
+			ol[corev1.ResourceCPU] = *resource.NewQuantity(int64(r.Range(1, 12)), resource.DecimalSI)
+		}
+		if r.Chance(1, 3) {
+			ol["nodes"] = *resource.NewQuantity(int64(r.Range(0, 3)), resource.DecimalSI)
+		}
+		kit.Apply(ctx, cl, test.NodePool(v1.NodePool{ObjectMeta: metav1.ObjectMeta{Name: "other"}, Spec: v1.NodePoolSpec{Limits: v1.Limits(ol)}}))
+		emitPools = append(emitPools, epool{"other", ol})
+		c.Count("P:pools:second-dynamic-pool")
+	}
+	if mode <= 2 && r.Chance(1, 3) {
+		kit.Apply(ctx, cl, test.StaticNodePool(v1.NodePool{ObjectMeta: metav1.ObjectMeta{Name: "stat"}, Spec: v1.NodePoolSpec{Replicas: lo.ToPtr(int64(2))}}))
+		nr := test.NodePool(v1.NodePool{ObjectMeta: metav1.ObjectMeta{Name: "nr"}})
+		nr.StatusConditions().SetFalse(v1.ConditionTypeNodeClassReady, "NotReady", "not ready")
+		kit.Apply(ctx, cl, nr)
+		c.Count("P:pools:static-and-not-ready-neighbours")
+	}
 
 	cluster := state.NewCluster(clk, cl, cp)
 	prov := provisioning.NewProvisioner(cl, events.NewRecorder(&record.FakeRecorder{}), cp, cluster, clk, deviceallocation.NewController(cl), virtualpods.NewVirtualPodCache(cl))
@@ -196,7 +227,11 @@ func runP(c *kit.Ctx, r *kit.Rand, mode int) {
 			it, st = catalog[len(catalog)-1], nsReady
 		}
 		name := fmt.Sprintf("existing-%d", i)
-		labels := map[string]string{v1.NodePoolLabelKey: "pool", corev1.LabelInstanceTypeStable: it.Name, corev1.LabelTopologyZone: "test-zone-1",
+		owner := "pool"
+		if len(emitPools) > 1 && r.Chance(1, 3) {
+			owner = "other"
+		}
+		labels := map[string]string{v1.NodePoolLabelKey: owner, corev1.LabelInstanceTypeStable: it.Name, corev1.LabelTopologyZone: "test-zone-1",
 			v1.CapacityTypeLabelKey: "on-demand"}
 		if st != nsInFlight {
 			labels[v1.NodeRegisteredLabelKey] = "true"
@@ -212,6 +247,11 @@ func runP(c *kit.Ctx, r *kit.Rand, mode int) {
 		node.Spec.Taints = nil
 		node.Finalizers = nil
 		switch st {
+		case nsUninitialized:
+			if r.Bool() { // the kubelet has not reported this resource yet: the NodeClaim's value counts
+				node.Status.Capacity = lo.Assign(node.Status.Capacity, corev1.ResourceList{corev1.ResourceMemory: resource.MustParse("0")})
+				c.Count("P:existing:uninitialized-node-reports-zero-memory")
+			}
 		case nsCordoned:
 			node.Spec.Unschedulable = true
 		case nsNotReady:
@@ -465,6 +505,22 @@ func runP(c *kit.Ctx, r *kit.Rand, mode int) {
 	}
 
 	active := cluster.DeepCopyNodes().Active()
+	if mode <= 2 && len(emitPools) == 1 && r.Chance(1, 20) {
+		// the only dynamic pool stops being ready: there is nothing to schedule against
+		cur := &v1.NodePool{}
+		if err := cl.Get(ctx, client.ObjectKey{Name: "pool"}, cur); err != nil {
+			panic(err)
+		}
+		cur.StatusConditions().SetFalse(v1.ConditionTypeNodeClassReady, "NotReady", "not ready")
+		if err := cl.Status().Update(ctx, cur); err != nil {
+			panic(err)
+		}
+		if _, err := prov.NewScheduler(ctx, pods, active, sets.New[types.UID]()); !errors.Is(err, provisioning.ErrNodePoolsNotFound) {
+			c.Fail(c.NextID(), fmt.Sprintf("a scheduler was built although no dynamic NodePool is ready (err=%v)", err), "", map[string]string{"kind": "pass"})
+		}
+		c.Count("P:pools:no-ready-dynamic-pool")
+		return
+	}
 	s, err := prov.NewScheduler(ctx, pods, active, sets.New[types.UID]())
 	if err != nil {
 		panic(err)
@@ -475,169 +531,250 @@ func runP(c *kit.Ctx, r *kit.Rand, mode int) {
 	if err != nil {
 		panic(err)
 	}
-	remaining := s.VerifC03RemainingResources()["pool"]
+	for _, pl := range emitPools {
+		poolName, limits := pl.name, pl.limits
+		remaining := s.VerifC03RemainingResources()[poolName]
 
-	// The pool's nodes recomputed from the API objects, independent of what the scheduler built: every NodeClaim of
-	// the pool with its Node's (else its own) status capacity + one node; being deleted = deletionTimestamp in the
-	// API or marked for deletion by this harness. Sorted for a canonical case.
-	type enode struct {
-		st   int
-		caps corev1.ResourceList
-	}
-	var all []enode
-	var existing []corev1.ResourceList // the ones that are not being deleted
-	nDeleting := 0
-	ncl := &v1.NodeClaimList{}
-	if err := cl.List(ctx, ncl); err != nil {
-		panic(err)
-	}
-	for i := range ncl.Items {
-		nc := &ncl.Items[i]
-		if nc.Labels[v1.NodePoolLabelKey] != "pool" {
-			continue
+		// The pool's nodes recomputed from the API objects, independent of what the scheduler built: every NodeClaim of
+		// the pool with its Node's (else its own) status capacity + one node; being deleted = deletionTimestamp in the
+		// API or marked for deletion by this harness. Sorted for a canonical case.
+		type enode struct {
+			st   int
+			caps corev1.ResourceList
 		}
-		caps := nc.Status.Capacity
-		node := &corev1.Node{}
-		if err := cl.Get(ctx, client.ObjectKey{Name: nc.Name}, node); err == nil {
-			caps = node.Status.Capacity
+		var all []enode
+		var existing []corev1.ResourceList // the ones that are not being deleted
+		nDeleting := 0
+		ncl := &v1.NodeClaimList{}
+		if err := cl.List(ctx, ncl); err != nil {
+			panic(err)
 		}
-		caps = lo.Assign(caps, corev1.ResourceList{"nodes": *resource.NewQuantity(1, resource.DecimalSI)})
-		st := stateOf[nc.Name]
-		if marked[nc.Name] && st != nsDeleting {
-			st = nsMarkedForDeletion
+		for i := range ncl.Items {
+			nc := &ncl.Items[i]
+			if nc.Labels[v1.NodePoolLabelKey] != poolName {
+				continue
+			}
+			caps := nc.Status.Capacity
+			node := &corev1.Node{}
+			if err := cl.Get(ctx, client.ObjectKey{Name: nc.Name}, node); err == nil {
+				caps = node.Status.Capacity.DeepCopy()
+				if node.Labels[v1.NodeInitializedLabelKey] != "true" {
+					// until the node is initialized a resource it reports as zero counts with the NodeClaim's value
+					for k, v := range nc.Status.Capacity {
+						if cur, ok := caps[k]; !ok || cur.IsZero() {
+							caps[k] = v
+						}
+					}
+				}
+			}
+			caps = lo.Assign(caps, corev1.ResourceList{"nodes": *resource.NewQuantity(1, resource.DecimalSI)})
+			st := stateOf[nc.Name]
+			if marked[nc.Name] && st != nsDeleting {
+				st = nsMarkedForDeletion
+			}
+			beingDeleted := !nc.DeletionTimestamp.IsZero() || marked[nc.Name]
+			if beingDeleted != (st == nsDeleting || st == nsMarkedForDeletion) {
+				panic("harness: API state and generated lifecycle state disagree for " + nc.Name)
+			}
+			all = append(all, enode{st, caps})
+			if beingDeleted {
+				nDeleting++
+			} else {
+				existing = append(existing, caps)
+			}
 		}
-		beingDeleted := !nc.DeletionTimestamp.IsZero() || marked[nc.Name]
-		if beingDeleted != (st == nsDeleting || st == nsMarkedForDeletion) {
-			panic("harness: API state and generated lifecycle state disagree for " + nc.Name)
-		}
-		all = append(all, enode{st, caps})
-		if beingDeleted {
-			nDeleting++
+		sort.Slice(all, func(i, j int) bool {
+			return fmt.Sprint(all[i].st, gRL(all[i].caps)) < fmt.Sprint(all[j].st, gRL(all[j].caps))
+		})
+		gnodes := kit.GListOf(all, func(e enode) string { return kit.GPair(nstateNames[e.st], gRL(e.caps)) })
+		jnodes := lo.Map(all, func(e enode, _ int) map[string]interface{} {
+			return map[string]interface{}{"state": nstateNames[e.st][1:], "capacity": milli(e.caps)}
+		})
+
+		// the incrementally maintained per-pool sum the Create guard reads
+		npres := cluster.NodePoolResourcesFor(poolName)
+		c.AddCase(fmt.Sprintf("CaseR %s %s", gnodes, gRL(npres)), map[string]interface{}{"kind": "nodePoolResources", "pool": poolName, "nodes": jnodes,
+			"history": jhist, "nodePoolResources": milli(npres)}, "")
+		if len(npres) == 0 {
+			c.Count("P:nodePoolResources:empty")
 		} else {
-			existing = append(existing, caps)
+			c.Count("P:nodePoolResources:non-empty")
 		}
-	}
-	sort.Slice(all, func(i, j int) bool {
-		return fmt.Sprint(all[i].st, gRL(all[i].caps)) < fmt.Sprint(all[j].st, gRL(all[j].caps))
-	})
-	gnodes := kit.GListOf(all, func(e enode) string { return kit.GPair(nstateNames[e.st], gRL(e.caps)) })
-	jnodes := lo.Map(all, func(e enode, _ int) map[string]interface{} {
-		return map[string]interface{}{"state": nstateNames[e.st][1:], "capacity": milli(e.caps)}
-	})
 
-	// adversarial launch: per NodeClaim one of its options (the largest half of the time), one of its offerings
-	usage := map[string]int64{}
-	for _, e := range existing {
-		for k, v := range milli(e) {
-			usage[k] += v
+		// adversarial launch: per NodeClaim one of its options (the largest half of the time), one of its offerings
+		usage := map[string]int64{}
+		for _, e := range existing {
+			for k, v := range milli(e) {
+				usage[k] += v
+			}
 		}
+		base := map[string]int64{}
+		for k, v := range usage {
+			base[k] = v
+		}
+		var gclaims, glaunched, jlaunched []string
+		var jclaims [][]string
+		overrideLaunched := false
+		for _, nc := range results.NewNodeClaims {
+			if nc.NodePoolName != poolName {
+				continue
+			}
+			its := nc.InstanceTypeOptions
+			gclaims = append(gclaims, kit.GListOf(its, func(it *cloudprovider.InstanceType) string { return gIT(it, nc.Requirements) }))
+			jclaims = append(jclaims, lo.Map(its, func(it *cloudprovider.InstanceType, _ int) string { return it.Name }))
+			it := kit.Pick(r, []*cloudprovider.InstanceType(its))
+			if r.Chance(1, 2) {
+				for _, cand := range its {
+					if cand.Capacity.Cpu().Cmp(*it.Capacity.Cpu()) > 0 {
+						it = cand
+					}
+				}
+			}
+			ofs := it.Offerings.Available().Compatible(nc.Requirements)
+			if len(ofs) == 0 {
+				panic("NodeClaim option without a compatible available offering")
+			}
+			o := kit.Pick(r, []*cloudprovider.Offering(ofs))
+			if mode == 2 && r.Chance(1, 2) {
+				for _, cand := range ofs {
+					if len(cand.CapacityOverride) > 0 {
+						o = cand
+					}
+				}
+			}
+			if len(o.CapacityOverride) > 0 {
+				overrideLaunched = true
+			}
+			capLaunched := lo.Assign(it.Capacity, o.CapacityOverride)
+			// Gallina side: assign base ov = ov ++ base
+			glaunched = append(glaunched, "("+gRL(o.CapacityOverride)+" ++ "+gRL(it.Capacity)+")")
+			jlaunched = append(jlaunched, fmt.Sprintf("%s@%s/%s", it.Name, o.Zone(), o.CapacityType()))
+			for k, v := range milli(capLaunched) {
+				usage[k] += v
+			}
+			usage["nodes"] += 1000
+		}
+
+		// the same oracle on the Go side, only to attach the known-finding key to the exact shape
+		var exceeded []string
+		for _, k := range kit.SortedKeys(milli(limits)) {
+			lim := milli(limits)[k]
+			if usage[k] > lim && usage[k] > base[k] {
+				exceeded = append(exceeded, k)
+			}
+		}
+		kf := ""
+		switch {
+		case len(exceeded) > 0 && overrideLaunched && !lo.Contains(exceeded, "nodes"):
+			kf = kfOverride
+			c.Count("P:oracle:override-exceeds(known finding shape)")
+		case len(exceeded) > 0:
+			c.Count("P:oracle:EXCEEDED-other")
+		default:
+			c.Count("P:oracle:within-limits")
+		}
+
+		switch {
+		case len(gclaims) == 0 && len(results.PodErrors) > 0:
+			c.Count("P:pass:no-claim,pods-failed")
+		case len(gclaims) == 0:
+			c.Count("P:pass:no-claim,pods-fit-existing")
+		case len(results.PodErrors) > 0:
+			c.Count(fmt.Sprintf("P:pass:%d-claims,some-pods-failed", min(len(gclaims), 3)))
+		default:
+			c.Count(fmt.Sprintf("P:pass:%d-claims", min(len(gclaims), 3)))
+		}
+		if len(limits) == 0 {
+			c.Count("P:limits:none")
+		}
+		if _, ok := limits["nodes"]; ok {
+			c.Count("P:limits:nodes")
+		}
+		if _, ok := limits[corev1.ResourceCPU]; ok {
+			c.Count("P:limits:cpu")
+		}
+		excluded := false
+		for _, opts := range jclaims {
+			if len(opts) < len(catalog) {
+				excluded = true
+			}
+		}
+		if excluded {
+			c.Count("P:claim-with-excluded-instance-types")
+		}
+
+		key := ""
+		if len(gclaims) > 0 {
+			key = fmt.Sprintf("P:%v|%v|%v|%v|%v", milli(limits), jcat, jpods, jclaims, jlaunched)
+		}
+		g := fmt.Sprintf("CaseP %s %s %s %s %s %s", kit.GBool(anti), gRL(limits), gnodes, kit.GList(gclaims), gRL(remaining), kit.GList(glaunched))
+		c.AddCase(g, pcase{Kind: "pass", KfKey: kf, Limits: milli(limits), Catalog: jcat, Existing: jnodes, History: jhist,
+			Deleting: nDeleting, Pods: jpods, Anti: anti, Claims: jclaims, Launched: jlaunched, Remaining: milli(remaining), Exceeded: exceeded}, key)
+
 	}
-	base := map[string]int64{}
-	for k, v := range usage {
-		base[k] = v
-	}
-	var gclaims, glaunched, jlaunched []string
-	var jclaims [][]string
-	overrideLaunched := false
+	// neighbours that the scheduler must not see
 	for _, nc := range results.NewNodeClaims {
-		if nc.NodePoolName != "pool" {
-			continue
+		if nc.NodePoolName == "stat" || nc.NodePoolName == "nr" {
+			c.Fail(c.NextID(), "the scheduler created a NodeClaim for a static or not-ready NodePool: "+nc.NodePoolName, "", map[string]string{"pool": nc.NodePoolName})
 		}
-		its := nc.InstanceTypeOptions
-		gclaims = append(gclaims, kit.GListOf(its, func(it *cloudprovider.InstanceType) string { return gIT(it, nc.Requirements) }))
-		jclaims = append(jclaims, lo.Map(its, func(it *cloudprovider.InstanceType, _ int) string { return it.Name }))
-		it := kit.Pick(r, []*cloudprovider.InstanceType(its))
-		if r.Chance(1, 2) {
-			for _, cand := range its {
-				if cand.Capacity.Cpu().Cmp(*it.Capacity.Cpu()) > 0 {
-					it = cand
-				}
+	}
+
+	// the last guard: Provisioner.CreateNodeClaims for the pass's NodeClaims of "pool", sometimes after the user has
+	// tightened the limits below what is already running
+	if mode <= 2 && r.Chance(1, 2) {
+		var mine []*pscheduling.NodeClaim
+		for _, nc := range results.NewNodeClaims {
+			if nc.NodePoolName == "pool" {
+				mine = append(mine, nc)
 			}
 		}
-		ofs := it.Offerings.Available().Compatible(nc.Requirements)
-		if len(ofs) == 0 {
-			panic("NodeClaim option without a compatible available offering")
+		usage := cluster.NodePoolResourcesFor("pool")
+		cur := &v1.NodePool{}
+		if err := cl.Get(ctx, client.ObjectKey{Name: "pool"}, cur); err != nil {
+			panic(err)
 		}
-		o := kit.Pick(r, []*cloudprovider.Offering(ofs))
-		if mode == 2 && r.Chance(1, 2) {
-			for _, cand := range ofs {
-				if len(cand.CapacityOverride) > 0 {
-					o = cand
+		switch r.Intn(4) {
+		case 0, 3: // tightened to just below / exactly at the usage of one resource
+			if ks := kit.SortedKeys(milli(usage)); len(ks) > 0 {
+				k := corev1.ResourceName(kit.Pick(r, ks))
+				q := usage[k].DeepCopy()
+				if r.Bool() {
+					q.Sub(*resource.NewMilliQuantity(1, resource.DecimalSI))
 				}
+				cur.Spec.Limits = v1.Limits(lo.Assign(corev1.ResourceList(cur.Spec.Limits), corev1.ResourceList{k: q}))
 			}
+		case 1:
+			cur.Spec.Limits = nil
 		}
-		if len(o.CapacityOverride) > 0 {
-			overrideLaunched = true
+		if err := cl.Update(ctx, cur); err != nil {
+			panic(err)
 		}
-		capLaunched := lo.Assign(it.Capacity, o.CapacityOverride)
-		// Gallina side: assign base ov = ov ++ base
-		glaunched = append(glaunched, "("+gRL(o.CapacityOverride)+" ++ "+gRL(it.Capacity)+")")
-		jlaunched = append(jlaunched, fmt.Sprintf("%s@%s/%s", it.Name, o.Zone(), o.CapacityType()))
-		for k, v := range milli(capLaunched) {
-			usage[k] += v
+		before := &v1.NodeClaimList{}
+		_ = cl.List(ctx, before)
+		_, _ = prov.CreateNodeClaims(ctx, mine)
+		after := &v1.NodeClaimList{}
+		_ = cl.List(ctx, after)
+		created := len(after.Items) - len(before.Items)
+		glim := "None"
+		if cur.Spec.Limits != nil {
+			glim = "(Some " + gRL(corev1.ResourceList(cur.Spec.Limits)) + ")"
 		}
-		usage["nodes"] += 1000
-	}
-
-	// the same oracle on the Go side, only to attach the known-finding key to the exact shape
-	var exceeded []string
-	for _, k := range kit.SortedKeys(milli(limits)) {
-		lim := milli(limits)[k]
-		if usage[k] > lim && usage[k] > base[k] {
-			exceeded = append(exceeded, k)
-		}
-	}
-	kf := ""
-	switch {
-	case len(exceeded) > 0 && overrideLaunched && !lo.Contains(exceeded, "nodes"):
-		kf = kfOverride
-		c.Count("P:oracle:override-exceeds(known finding shape)")
-	case len(exceeded) > 0:
-		c.Count("P:oracle:EXCEEDED-other")
-	default:
-		c.Count("P:oracle:within-limits")
-	}
-
-	switch {
-	case len(gclaims) == 0 && len(results.PodErrors) > 0:
-		c.Count("P:pass:no-claim,pods-failed")
-	case len(gclaims) == 0:
-		c.Count("P:pass:no-claim,pods-fit-existing")
-	case len(results.PodErrors) > 0:
-		c.Count(fmt.Sprintf("P:pass:%d-claims,some-pods-failed", min(len(gclaims), 3)))
-	default:
-		c.Count(fmt.Sprintf("P:pass:%d-claims", min(len(gclaims), 3)))
-	}
-	if len(limits) == 0 {
-		c.Count("P:limits:none")
-	}
-	if _, ok := limits["nodes"]; ok {
-		c.Count("P:limits:nodes")
-	}
-	if _, ok := limits[corev1.ResourceCPU]; ok {
-		c.Count("P:limits:cpu")
-	}
-	excluded := false
-	for _, opts := range jclaims {
-		if len(opts) < len(catalog) {
-			excluded = true
+		c.AddCase(fmt.Sprintf("CaseC %s %s %d%%nat %d%%nat", glim, gRL(usage), len(mine), created),
+			map[string]interface{}{"kind": "create-guard", "limits": milli(corev1.ResourceList(cur.Spec.Limits)), "nil_limits": cur.Spec.Limits == nil,
+				"nodePoolResources": milli(usage), "nodeclaims": len(mine), "created": created}, "")
+		switch {
+		case len(mine) == 0:
+			c.Count("P:create:no-claims")
+		case created == 0:
+			c.Count("P:create:refused(ExceededBy)")
+		default:
+			c.Count("P:create:created")
 		}
 	}
-	if excluded {
-		c.Count("P:claim-with-excluded-instance-types")
-	}
-
-	key := ""
-	if len(gclaims) > 0 {
-		key = fmt.Sprintf("P:%v|%v|%v|%v|%v", milli(limits), jcat, jpods, jclaims, jlaunched)
-	}
-	g := fmt.Sprintf("CaseP %s %s %s %s %s %s", kit.GBool(anti), gRL(limits), gnodes, kit.GList(gclaims), gRL(remaining), kit.GList(glaunched))
-	c.AddCase(g, pcase{Kind: "pass", KfKey: kf, Limits: milli(limits), Catalog: jcat, Existing: jnodes, History: jhist,
-		Deleting: nDeleting, Pods: jpods, Anti: anti, Claims: jclaims, Launched: jlaunched, Remaining: milli(remaining), Exceeded: exceeded}, key)
 }
 
 func partP(c *kit.Ctx) int {
-	n := 240
+	n := 150
 	if c.Thorough() {
 		n = 2000
 	}
